@@ -157,7 +157,8 @@ class UnitDB:
     def __init__(self, obs):
         self.units = {}
         self.alias_to_unit = {}
-        for u in obs["units"]:
+        # the registry iterates a HashMap: sort, so that workloads are reproducible per seed
+        for u in sorted(obs["units"], key=lambda u: u["name"]):
             U = Unit()
             U.name = u["name"]
             U.is_base = u["is_base"]
